@@ -25,6 +25,7 @@ pub fn dispatch(prop: &str, ctx: Ctx) -> ! {
         "C06" => render_prop(ctx, &c06()),
         "C02" => render_prop(ctx, &c02()),
         "C11" => render_prop(ctx, &c11()),
+        "C18" => render_prop(ctx, &c18()),
         "C13" => crate::c13::run(ctx),
         "C07" => crate::probes::run(ctx, "C07"),
         "C08" => crate::probes::run(ctx, "C08"),
@@ -83,7 +84,7 @@ fn std_key_classes(k: &KeyPlan) -> Vec<String> {
     add(k.has_range, "range");
     add(k.has_plural, "plural");
     add(k.multi_locale_sig, "members-differ-across-locales");
-    add(k.has_formatter, "skipped:formatter");
+    add(k.has_formatter, "has-formatter");
     c
 }
 
@@ -104,7 +105,10 @@ pub fn project_for(tape: &[u32], rp: &RenderProp) -> Option<(Project, Plan, u64)
         return None;
     }
     let plan = plan::plan_project(&p, &rp.opts, &mut t);
-    if plan.keys.iter().all(|k| k.has_formatter) {
+    if plan.keys.iter().all(|k| k.has_formatter) && !rp.opts.formatters {
+        return None;
+    }
+    if rp.opts.formatters && !plan.keys.iter().any(|k| k.has_formatter) {
         return None;
     }
     Some((p, plan, style_seed))
@@ -148,8 +152,7 @@ fn value_targets(v: &Value, ns: &Option<String>, out: &mut Vec<(Option<String>, 
 }
 
 /// the top-level keys a key depends on through `$t` (in any locale), itself included
-pub fn dependency_closure(p: &Project, ns: &Option<String>, top: &str) -> BTreeSet<(Option<String>, String)> {
-    let mut keep: BTreeSet<(Option<String>, String)> = BTreeSet::new();
+fn closure_only(p: &Project, ns: &Option<String>, top: &str, keep: &mut BTreeSet<(Option<String>, String)>) {
     let mut todo = vec![(ns.clone(), top.to_string())];
     while let Some((n, k)) = todo.pop() {
         if !keep.insert((n.clone(), k.clone())) {
@@ -166,6 +169,12 @@ pub fn dependency_closure(p: &Project, ns: &Option<String>, top: &str) -> BTreeS
             }
         }
     }
+}
+
+/// `closure_only`, plus one key (and its closure) per namespace that would otherwise become empty
+pub fn dependency_closure(p: &Project, ns: &Option<String>, top: &str) -> BTreeSet<(Option<String>, String)> {
+    let mut keep: BTreeSet<(Option<String>, String)> = BTreeSet::new();
+    closure_only(p, ns, top, &mut keep);
     // every namespace must keep at least one key in the default locale (files must stay loadable)
     for ns in p.ns_list() {
         if !keep.iter().any(|(n, _)| *n == ns) {
@@ -173,9 +182,7 @@ pub fn dependency_closure(p: &Project, ns: &Option<String>, top: &str) -> BTreeS
                 if let Some((k, _)) = obj.iter().find(|(_, v)| matches!(v, Value::Str(pc) if pc.iter().all(|x| matches!(x, Piece::Text(_))))) {
                     keep.insert((ns.clone(), k.clone()));
                 } else if let Some((k, _)) = obj.first() {
-                    for d in dependency_closure(p, &ns, k) {
-                        keep.insert(d);
-                    }
+                    closure_only(p, &ns, k, &mut keep);
                 }
             }
         }
@@ -212,7 +219,14 @@ fn emit_pkg(ws: &Path, pkg: &Pkg, rp: &RenderProp, only_keys: Option<&BTreeSet<u
         }
         None => &pkg.plan,
     };
-    let mut main = if rp.flavours { emit_c02::main_rs(plan, pkg.project.locales.len()) } else { emit::main_rs(plan, pkg.project.locales.len(), &rp.opts) };
+    let mut main = if rp.flavours {
+        emit_c02::main_rs(plan, pkg.project.locales.len())
+    } else if rp.opts.formatters {
+        let refs: Vec<String> = reference_descriptors(&pkg.project, plan).into_iter().collect();
+        emit::main_rs_with_refs(plan, pkg.project.locales.len(), &rp.opts, &refs)
+    } else {
+        emit::main_rs(plan, pkg.project.locales.len(), &rp.opts)
+    };
     if rp.dynamic_load {
         main = emit::with_tables(&main, &pkg.project);
     }
@@ -224,12 +238,35 @@ fn emit_pkg(ws: &Path, pkg: &Pkg, rp: &RenderProp, only_keys: Option<&BTreeSet<u
     let features = if rp.dynamic_load { format!("{}, \"dynamic_load\"", emit::FEATURES_STD) } else { emit::FEATURES_STD.to_string() };
     let deps = if rp.flavours {
         emit_c02::EXTRA_DEPS
+    } else if rp.opts.formatters {
+        "vref = { path = \"/verif/engine/vref\" }\n"
     } else if rp.dynamic_load {
         "serde_json = \"1\"\nfutures = \"0.3\"\n"
     } else {
         ""
     };
     emit::write_package(&ws.join(&pkg.name), &pkg.name, &pkg.project, &main, &style, &features, deps)
+}
+
+/// every reference descriptor the expected strings of a plan mention
+fn reference_descriptors(p: &Project, plan: &Plan) -> BTreeSet<String> {
+    let mut out = BTreeSet::new();
+    for k in &plan.keys {
+        if !k.has_formatter {
+            continue;
+        }
+        for li in 0..p.locales.len() {
+            for a in &k.assigns {
+                let n = a.loop_var.as_ref().map(|(_, _, pr)| pr.len()).unwrap_or(1);
+                for ci in 0..n {
+                    if let Ok(e) = plan::expected(p, k, li, a, ci, false) {
+                        plan::placeholders_of(&e, &mut out);
+                    }
+                }
+            }
+        }
+    }
+    out
 }
 
 /// compare one package's output with the model; returns per-key case infos or the first failure
@@ -283,8 +320,24 @@ fn compare_pkg(pkg: &Pkg, out: &run::RunOutput, rp: &RenderProp, only_keys: Opti
             }
         }
     }
+    // reference strings printed by the binary (formatter stages)
+    let mut refs: BTreeMap<String, String> = BTreeMap::new();
+    if rp.opts.formatters {
+        for (id, text) in &out.obs {
+            if let Some(d) = id.strip_prefix("R|") {
+                match text.strip_prefix("OK:") {
+                    Some(t) => {
+                        refs.insert(d.to_string(), t.to_string());
+                    }
+                    None => {
+                        return Err(fail("harness-reference", json!({"package": pkg.name, "descriptor": d, "error": text})));
+                    }
+                }
+            }
+        }
+    }
     for k in &pkg.plan.keys {
-        if k.has_formatter {
+        if k.has_formatter && !rp.opts.formatters {
             continue;
         }
         if let Some(set) = only_keys {
@@ -304,6 +357,14 @@ fn compare_pkg(pkg: &Pkg, out: &run::RunOutput, rp: &RenderProp, only_keys: Opti
                         (Err(e), _) | (_, Err(e)) => {
                             return Err(fail("harness-model", json!({"error": format!("{e:?}"), "key": k.path})));
                         }
+                    };
+                    let (exp_s, exp_v) = if k.has_formatter {
+                        match (plan::substitute_refs(&exp_s, &refs), plan::substitute_refs(&exp_v, &refs)) {
+                            (Ok(a), Ok(b)) => (a, b),
+                            (Err(e), _) | (_, Err(e)) => return Err(fail("harness-reference", json!({"error": e, "key": k.path, "package": pkg.name}))),
+                        }
+                    } else {
+                        (exp_s, exp_v)
                     };
                     let mut backends = vec![];
                     if rp.opts.string_backend {
@@ -341,7 +402,8 @@ fn compare_pkg(pkg: &Pkg, out: &run::RunOutput, rp: &RenderProp, only_keys: Opti
                                 &format!("l2-render-mismatch:{}", match b { 'S' => "td_string", 'D' => "td_display", _ => "td-view" }),
                                 json!({
                                     "package": pkg.name, "key": emit::key_tokens(k), "key_index": k.idx, "locale": p.locales[li], "effective_locale": k.per_locale[li].0,
-                                    "backend": b.to_string(), "vars": a.vars, "count": count, "fixed_counts": format!("{:?}", a.fixed),
+                                    "backend": b.to_string(), "vars": a.vars, "formatted_vars": format!("{:?}", a.fvars), "count": count, "fixed_counts": format!("{:?}", a.fixed),
+                                    "expected_with_reference_descriptors": if k.has_formatter { plan::expected(p, k, li, a, ci, b == 'V').ok() } else { None },
                                     "expected": exp, "actual": got_norm, "raw": got,
                                     "values_of_key": values,
                                 }),
@@ -638,28 +700,35 @@ fn finish(ctx: Ctx, rp: &RenderProp) -> ! {
 
 /// builds the dependencies of generated packages once (called by setup.sh)
 fn warmup(mut ctx: Ctx) -> ! {
-    let rp = c01();
     ctx.replay = Some(PathBuf::from("<warmup>"));
-    let tapes = ctx.draw_tapes("warmup", 8, 300);
-    for tape in tapes {
-        if let Some((project, plan, style_seed)) = project_for(&tape, &rp) {
-            let pkg = Pkg {
-                name: "warmup_p0".into(),
-                tape,
-                project,
-                plan,
-                style_seed,
-                fixed: None,
-            };
-            let ws = ws_dir("warmup");
-            let _ = run::prepare_workspace(&ws, &[pkg.name.clone()]);
-            let _ = emit_pkg(&ws, &pkg, &rp, None);
-            let br = run::build_workspace(&ws, &[pkg.name.clone()], false);
-            eprintln!("warmup build: ok={} {:.1}s {:?}", br.ok, br.wall_s, br.errors);
-            std::process::exit(if br.ok { 0 } else { 2 });
+    // one plain package and one formatter package (the latter also builds the `vref` reference crate)
+    let mut all_ok = true;
+    for (rp, name, len) in [(c01(), "warmup_p0", 300usize), (c18(), "warmup_p1", 1500usize)] {
+        let tapes = ctx.draw_tapes(name, 16, len);
+        let mut built = false;
+        for tape in tapes {
+            if let Some((project, plan, style_seed)) = project_for(&tape, &rp) {
+                let pkg = Pkg {
+                    name: name.into(),
+                    tape,
+                    project,
+                    plan,
+                    style_seed,
+                    fixed: None,
+                };
+                let ws = ws_dir(name);
+                let _ = run::prepare_workspace(&ws, &[pkg.name.clone()]);
+                let _ = emit_pkg(&ws, &pkg, &rp, None);
+                let br = run::build_workspace(&ws, &[pkg.name.clone()], false);
+                eprintln!("warmup build {name}: ok={} {:.1}s {:?}", br.ok, br.wall_s, br.errors);
+                all_ok &= br.ok;
+                built = true;
+                break;
+            }
         }
+        all_ok &= built;
     }
-    std::process::exit(2)
+    std::process::exit(if all_ok { 0 } else { 2 })
 }
 
 // ------------------------------------------------------------------------------------------
@@ -954,6 +1023,126 @@ pub fn c06() -> RenderProp {
                one key; non-trivial = reference chain of depth >=2, or a reference to a range / plural / defaulted key; distinct = hash of \
                the resolved values",
         assumptions: &["`$t` inside a component body is outside the generated domain"],
+        min_nontrivial: 10,
+        shape: None,
+        flavours: false,
+        dynamic_load: false,
+        fixed_projects: None,
+    }
+}
+
+fn fmt_walk(p: &[vcommon::sem::RPiece], inside: &str, out: &mut Vec<String>) {
+    use vcommon::sem::RPiece;
+    for x in p {
+        match x {
+            RPiece::Var { fmt: Some(f), name } => {
+                out.push(format!("formatter:{}", f.name));
+                if !inside.is_empty() {
+                    out.push(format!("formatter-inside-{inside}"));
+                }
+                if name == "count" || name == "renamed_count" {
+                    out.push("formatted-count-variable".to_string());
+                }
+            }
+            RPiece::Comp { children, .. } => fmt_walk(children, "component", out),
+            RPiece::Range(r) => r.branches.iter().for_each(|(_, b)| fmt_walk(b, "range", out)),
+            RPiece::Plural(pl) => pl.forms.values().for_each(|b| fmt_walk(b, "plural", out)),
+            _ => {}
+        }
+    }
+}
+
+fn fmt_options_by_var(p: &[vcommon::sem::RPiece], out: &mut BTreeMap<String, BTreeSet<String>>) {
+    use vcommon::sem::RPiece;
+    for x in p {
+        match x {
+            RPiece::Var { fmt: Some(f), name } => {
+                out.entry(name.clone()).or_default().insert(format!("{}:{:?}", f.name, plan::canonical_options(f)));
+            }
+            RPiece::Comp { children, .. } => fmt_options_by_var(children, out),
+            RPiece::Range(r) => r.branches.iter().for_each(|(_, b)| fmt_options_by_var(b, out)),
+            RPiece::Plural(pl) => pl.forms.values().for_each(|b| fmt_options_by_var(b, out)),
+            _ => {}
+        }
+    }
+}
+
+pub fn c18() -> RenderProp {
+    RenderProp {
+        id: "C18",
+        cfg: |_| GenCfg {
+            locales: (2, 4),
+            p_namespaces: 20,
+            keys: (5, 8),
+            sub_depth: 2,
+            w_kinds: [1, 8, 1, 3, 3, 2, 3],
+            p_null: 8,
+            p_absent: 8,
+            p_kind_varies: 15,
+            p_inherits: 40,
+            max_pieces: 5,
+            max_comp_depth: 2,
+            formatters: true,
+            p_formatter: 60,
+            fmt_no_zoned_time: true,
+            plural_locales_only: true,
+            ..GenCfg::default()
+        },
+        opts: PlanOpts {
+            assignments: 2,
+            max_counts: 6,
+            formatters: true,
+            ..PlanOpts::default()
+        },
+        packages: (32, 480),
+        tape_len: 2500,
+        nontrivial: |k| {
+            if !k.has_formatter {
+                return false;
+            }
+            let mut c = vec![];
+            for (_, r) in &k.per_locale {
+                fmt_walk(r, "", &mut c);
+            }
+            k.per_locale.len() >= 2 && (c.iter().any(|x| x.starts_with("formatter-inside-") || x == "formatted-count-variable") || k.defaulted_any)
+        },
+        classes: |k| {
+            let mut c = vec![];
+            for (_, r) in &k.per_locale {
+                fmt_walk(r, "", &mut c);
+            }
+            let mut by_var: BTreeMap<String, BTreeSet<String>> = BTreeMap::new();
+            for (_, r) in &k.per_locale {
+                fmt_options_by_var(r, &mut by_var);
+            }
+            if by_var.values().any(|s| s.len() >= 2) {
+                c.push("one-variable-formatted-with-different-options".to_string());
+            }
+            if k.has_formatter && k.defaulted_any {
+                c.push("formatter-in-a-key-defaulted-by-some-locale".to_string());
+            }
+            let mut vals = BTreeSet::new();
+            for a in &k.assigns {
+                for v in a.fvars.values() {
+                    vals.insert(format!("value:{}", v.rust()));
+                }
+            }
+            c.extend(vals);
+            c.sort();
+            c.dedup();
+            c
+        },
+        rule: "stage 2 (generated crates): generated projects of 2-4 locales in which 60% of the variables (and some range / plural count \
+               variables) carry a formatter of one of the six families with generated options, inside plain strings, components, range \
+               branches, plural forms, referenced keys and keys defaulted by other locales; each package is compiled with the real \
+               load_locales!() and every (locale, key, 2 typed value assignments, <=6 counts) is observed through td_string!, td_display! \
+               and td!(..).to_html(). oracle = the reference model's rendering in which every formatted variable is replaced by the output \
+               of a freshly built ICU4X formatter for (formatter, documented-default-completed options, rendered locale, value), computed \
+               inside the generated binary by the independent `vref` crate from a textual descriptor. `time_length: full|long` is never \
+               generated (known finding D23, decided by stage 1). one case = one key; non-trivial = key with a formatter and >=2 locales \
+               whose formatter sits inside a component / range / plural, formats a count variable, or whose key is defaulted by some locale; \
+               distinct = hash of the resolved values",
+        assumptions: &["ICU4X compiled data of the generated binary is the data leptos_i18n links (same crate instance through the lock file)"],
         min_nontrivial: 10,
         shape: None,
         flavours: false,
